@@ -3,7 +3,7 @@ CONFIG = {
     "runner": {"module": "Verif.model.AvmArithSpec", "ident": "check"},
     "harness": [{
         "name": "logic", "pkg": "./data/transactions/logic/", "run": "^TestVerifC32$",
-        "files": ["data/transactions/logic/zz_verif_c32_test.go"],
+        "files": ["data/transactions/logic/zz_verif_c32_test.go", "data/transactions/logic/zz_verif_c32_producers_test.go"],
         "util": [("data/transactions/logic", "logic")],
         "env": {"quick": {"VERIF_C32_N": 60}, "thorough": {"VERIF_C32_N": 1200, "VERIF_C32_EXTRA": 800000}},
         "timeout": {"quick": 900, "thorough": 3000},
@@ -21,6 +21,13 @@ CONFIG = {
             "leading zeros/random as a grid for byte math, random up to 66 bytes (528 bits) incl. equal values with different padding, a+-1, exact "
             "multiples; bitwise ops up to 120 bytes and one 512-byte (thorough 4096-byte) pair; getbit/setbit/getbyte/setbyte/extract: every index around the end of "
             "0..5(12)-byte strings, indexes 2^63, 2^64-1, 2^64-n (wrapping end), values 0,1,2 / 255,256; mixed-type == and !=. "
+            "PRODUCER FORMS (zz_verif_c32_producers_test.go): for a boundary subset of operand tuples of every opcode the same abstract operand is built "
+            "by other opcodes so that the stackValue differs in its hidden fields: bytes via pushbytes | itob(taint)++x;extract 8 0 | ...;substring3 "
+            "(stale Uint = 0xA5A5A5A5DEADBEEF) | bzero(len) b| x and int len;bzero (stale Uint = len) | int v;itob (stale Uint = v) | concat of halves | "
+            "prefix of a longer array via extract3 | select; ints via pushint | btoi | bzero;len | x+0 | x*1 | ! | itob;btoi | extract_uint64 | ==; all "
+            "form combinations up to a cap (then sampled), rotated through swap;swap / cover;uncover / reversed+swap / dup;pop shuffles, plus for every "
+            "operand an aliased copy (dig;cover, sharing the byte slice) underneath that must come out unchanged (else it stays in the observation, which "
+            "then violates the specified shape). The form is recorded in the mode symbol (sig.p31.s2.a0) and ignored by the model. "
             "Non-trivial = some operand is non-zero / non-empty; distinct = distinct case lines.",
     "exhaustive": {"quick": False, "thorough": False},
     "explanation": "the theorems hold for ALL operands (every 64-bit word, every byte string up to 4096 bytes; sqrt by loop invariant, exp/expw/bytes by "
